@@ -110,6 +110,8 @@ def mk(op, *a):
         c, x, y = a
         if c[0] == 'bool':
             return x if c[1] else y
+        if c[0] == 'num':                      # a two-valued discriminant used as the condition (0 = the '0' arm)
+            return x if c[1] != 0 else y
         if x == y:
             return x
         return ('gamma', c, x, y)
